@@ -2,7 +2,8 @@
 """Re-apply every stored seeded change to /repo's current tree, run the property's quick check (and the
 thorough one if quick misses), undo, and report.  /repo must be clean when this starts.
 
-    tools/seed_verify_all.py [name-substring]
+    tools/seed_verify_all.py [name-substring]          (SEED_FOR_VERIFY=<n> uses that VERIF_SEED and only the quick tier;
+                                                        the result is stored as reverified_quick_seed_<n>)
 """
 import json
 import os
@@ -35,14 +36,15 @@ def main():
         sh(f"git -C /repo apply {d / 'patch.diff'}")
         try:
             caught = None
-            for tier in ("quick", "thorough"):
-                rc, out = sh(f"./check.py {prop} --tier {tier}", cwd=HERE, env=dict(os.environ, VERIF_SEED="0"))
+            seed = os.environ.get("SEED_FOR_VERIFY", "0")
+            for tier in (("quick", "thorough") if seed == "0" else ("quick",)):
+                rc, out = sh(f"./check.py {prop} --tier {tier}", cwd=HERE, env=dict(os.environ, VERIF_SEED=seed))
                 if rc == 1:
                     caught = tier; break
         finally:
             sh("git -C /repo checkout -- .")
         print(f"{d.name}: caught at {caught}")
-        meta["reverified_caught_by"] = caught
+        meta["reverified_caught_by" if seed == "0" else f"reverified_quick_seed_{seed}"] = caught
         (d / "meta.json").write_text(json.dumps(meta, indent=1))
         bad += caught is None
     return 1 if bad else 0
